@@ -127,6 +127,25 @@ def value_and_search(rnd, acc, case=None):
                     c_.clear()
                     c_.extend([0, 1, 2, 3, 4, 5, 6])
             acc.count('constructor_alias_probes')
+            # ... and what the accessors hand out is the caller's as well: a week table fetched to derive the next calendar from it
+            # (or a list of dates) may be edited freely
+            for _sub, obj_ in parts:
+                for acc_name in ('get_week_day_hours', 'dates'):
+                    f_ = getattr(obj_, acc_name, None)
+                    if f_ is None:
+                        continue
+                    try:
+                        got_c = f_() if callable(f_) else f_
+                    except Exception:
+                        continue
+                    if isinstance(got_c, dict):
+                        for k_ in list(got_c):
+                            got_c[k_] = 77
+                        got_c[5] = 77
+                        acc.count('accessor_alias_probes')
+                    elif isinstance(got_c, list):
+                        got_c.clear()
+                        acc.count('accessor_alias_probes')
     except Exception as e:
         acc.ev()
         acc.violation(f'C17/valid-definition-rejected/{type(e).__name__}', f'valid calendar expression {shp} rejected: {type(e).__name__}: {e}', case)
